@@ -390,6 +390,8 @@ pub struct DecryptBackend<C: CryptoKey> {
     zstd: Option<i32>,
     /// Whether to do an extra verification by decompressing and decrypting the data
     extra_verify: bool,
+    /// Whether to verify when reading a repository file that its id is the SHA-256 of the stored data
+    verify_id: bool,
 }
 
 impl<C: CryptoKey> DecryptBackend<C> {
@@ -411,10 +413,23 @@ impl<C: CryptoKey> DecryptBackend<C> {
         Self {
             be,
             key,
-            // zstd and extra_verify are directly set, where needed.
+            // zstd, extra_verify and verify_id are directly set, where needed.
             zstd: None,
             extra_verify: false,
+            verify_id: false,
         }
+    }
+
+    /// Sets whether repository files are verified when they are read, i.e. whether reading a file
+    /// fails if the SHA-256 of the stored data is not the id the file was asked for.
+    ///
+    /// The config file is never verified as it is not stored under its id by most backends.
+    ///
+    /// # Arguments
+    ///
+    /// * `verify_id` - Whether to verify the id of repository files which are read.
+    pub fn set_verify_id(&mut self, verify_id: bool) {
+        self.verify_id = verify_id;
     }
 
     /// Decrypt and potentially decompress an already read repository file
@@ -615,8 +630,19 @@ impl<C: CryptoKey> DecryptReadBackend for DecryptBackend<C> {
     ///
     /// * If the backend does not support decryption.
     /// * If the data could not be decoded.
+    /// * If ids are verified and the hash of the stored data is not the given id.
     fn read_encrypted_full(&self, tpe: FileType, id: &Id) -> RusticResult<Bytes> {
-        self.decrypt_file(&self.read_full(tpe, id)?)
+        let data = self.read_full(tpe, id)?;
+        if self.verify_id && tpe != FileType::Config && hash(&data) != *id {
+            return Err(RusticError::new(
+                ErrorKind::Verification,
+                "Hash mismatch for `{tpe}:{id}`: the stored data does not belong to this id. The file may be corrupted or may have been replaced. Please check the backend.",
+            )
+            .attach_context("tpe", tpe.to_string())
+            .attach_context("id", id.to_string())
+            .attach_error_code("C004"));
+        }
+        self.decrypt_file(&data)
             .map_err(|err| {
                 RusticError::with_source(
                     ErrorKind::Cryptography,
